@@ -773,7 +773,7 @@ theorem encodeBytes_parses' (env : Env) (O : Oracle) (hO : FloatTextOk O)
 message of a flat environment (j5 `Any` included, codec without `WithProtoToAny`) and
 `Codec.JSONToProto` maps the bytes back to exactly that message -/
 theorem roundtrip_bytes (c : Cfg) (hs : c.env.flat = true) (L : OracleLaws c.O)
-    (hC : c.env.noAny = true ∨ ChunkLaws c.O) (hA : c.protoToAny = false ∨ c.env.noAny = true)
+    (hC : c.env.noAny = true ∨ ChunkLaws c.O) (hA : c.protoToAny = false ∨ c.env.noJ5Any = true)
     (root : String)
     (m : Fields)
     (hok : valOk c.env c.O (.object root) (.msg m) = true ∨ valOk c.env c.O (.oneof root) (.msg m) = true) :
